@@ -63,7 +63,8 @@ TopNoLine(k, m, t, r) == LET g == TopNoLineG(k, m, t, r) IN
   /\ mode' = NoMode
 
 (* opening a sub-mode: the parent must have been defined, except where the opener creates it *)
-Creates(kind) == kind \in {"cm", "webvpn"}
+\* (`crypto ipsec ikev2 ipsec-proposal NAME` opens the sub-mode "." of a proposal and creates an empty one)
+Creates(kind) == kind \in {"cm", "webvpn", "prop"}
 SubEnterG(k, kind, m) ==
   CASE Homonym(kind) -> "top-level command issued inside a sub-mode that has a homonymous sub-command"
     [] ~Creates(kind) /\ ~HasTopPrefix(k, kind) -> "sub-mode of an object that is not defined"
